@@ -1277,7 +1277,8 @@ func (x *Exec) equal(st *State, a, b Value, ty types.Type) string {
 			case s == "Iface":
 				return eq(v.T, "iface_nil")
 			case s == "Bytes":
-				return app("bnil", v.T)
+				// nil and empty byte slices are not distinguished (A-NIL)
+				return eq(v.T, "bempty")
 			case strings.HasPrefix(s, "(Opt"):
 				return isNoneT(v.T, s)
 			case strings.HasPrefix(s, "(GSeq"):
